@@ -1,5 +1,5 @@
 """property -> rules registry (claimed properties only)"""
-from . import rules_bounds, rules_state, rules_arith, rules_except, rules_guard, rules_slice, rules_types, rules_dep, rules_order, rules_cache, rules_assume, rules_extra, rules_lemma
+from . import rules_bounds, rules_state, rules_arith, rules_except, rules_guard, rules_slice, rules_types, rules_dep, rules_order, rules_cache, rules_assume, rules_extra, rules_lemma, rules_iter
 
 RULES = {
     "P1": rules_state.rule_P1,
@@ -8,6 +8,7 @@ RULES = {
     "M1": rules_state.rule_M1,
     "Y1": rules_state.rule_Y1,
     "M2": rules_state.rule_M2,
+    "Q2": rules_iter.rule_Q2,
     "N1": rules_arith.rule_N1,
     "N2": rules_arith.rule_N2,
     "E1": rules_except.rule_E1,
@@ -102,7 +103,7 @@ PROPS = {
     "C05": {
         "id": "C05",
         "title": "No call corrupts memory or hangs: misuse is reported by exception",
-        "rules": ["G1", "G2", "G3", "G5", "G6", "E1", "A1", "Z1", "Z2", "D2", "G7", "N4", "A2", "Q1", "E2", "Y1"],
+        "rules": ["G1", "G2", "G3", "G5", "G6", "E1", "A1", "Z1", "Z2", "D2", "G7", "N4", "A2", "Q1", "E2", "Y1", "Q2"],
         "clause": "guard completeness (mechanisms 1-3 of the anchors): every plan solve() checks the input length with a live "
                   "check before mixing it with plan tables; every foreign-bound subscript and caller-supplied index in a public "
                   "function is dominated by a live relating guard; slices are range-checked at creation and count-checked at "
@@ -227,7 +228,7 @@ PROPS = {
     "C15": {
         "id": "C15",
         "title": "Prime and power-of-two helpers agree with number theory and terminate",
-        "rules": ["N2", "N2s", "M1"],
+        "rules": ["N2", "N2s", "M1", "Q2"],
         "clause": "no trial-division bound is computed in a type that can wrap for a 32-bit argument (necessary for correctness and "
                   "for termination within sqrt(n) steps above 65521^2)",
         "not_decided": "agreement with number theory below the wrap threshold (value-level), nextpow2/ispow2",
